@@ -147,8 +147,8 @@ theorem bad_index_rejected (sha : Bytes → Bytes) (t : Tx) (idx : Nat) (sc : By
     sighashLegacy sha t idx sc f = none ∧ sighashSegwit sha t idx sc v f = none := by
   simp [sighashLegacy, sighashSegwit, h]
 
--- GOAL (not proved): entry_points_agree — PSBT.sighash / PSBTView.sighash dispatch (script-code choice, segwit
---   detection) equals the consensus rule for the input's script type, composed with C05's view_refines_parse.
+-- entry_points_agree — PSBT.sighash / PSBTView.sighash (dispatch, the view's streaming digests) equal each other and
+--   the consensus digest — is proved in Props/C01X.lean.
 
 /-! ### non-vacuity -/
 example : validFlag 0x83 = true ∧ validTaprootFlag 0x83 = true ∧ 0 < C03.exLegacy.vin.length := by decide
